@@ -84,6 +84,9 @@ package reader
 // a message that stays in this handler's pack (nothing is being forwarded) belongs to a collection placed on this
 // handler's downstream channel and was read from this handler's source channel;
 //@   loop 3 step [a-message-kept-for-this-channel-belongs-to-it] len(newPack.Msgs) > prev(len(newPack.Msgs)) && forwardChannel == "" && info.PChannel != "" && originPositionPChannel != "" ==> r.targetPChannel == info.PChannel && r.sourcePChannel == originPositionPChannel
+// the position of a message that is kept names the collection's downstream channel (physical, or virtual if the source
+// position named a virtual channel) and keeps the source message id
+//@   loop 3 step [the-position-of-a-kept-message-names-the-downstream-channel-and-keeps-the-message-id] len(newPack.Msgs) > prev(len(newPack.Msgs)) ==> msgPosition(msg) != nil && msgPosition(msg).ChannelName == positionChannel && (positionChannel == info.PChannel || positionChannel == info.VChannel) && (originPosition != nil ==> msgPosition(msg).MsgID == originPosition.MsgID)
 // a pack that has to be forwarded is addressed by the side the handlers are keyed by: the downstream channel of the
 // collection when handlers are keyed by source channel, the channel the message was read from otherwise
 //@   loop 3 step [a-forwarded-pack-is-addressed-by-the-key-side] forwardChannel != prev(forwardChannel) ==> forwardChannel == ite(r.sourceKey, info.PChannel, originPositionPChannel)
